@@ -67,7 +67,8 @@ func (a *c43Store) ListUsers(bool) map[string]defs.User          { return a.user
 func (a *c43Store) Flush() error                                 { return nil }
 func (a *c43Store) Close() error                                 { return nil }
 
-// Ops: grant [user(1,2), dsn, table, mask(1..31)] ; revoke [user, dsn, table] ; get/put/patch/del [user(0..2), dsn, table] ;
+// Ops: grant [user(1,2), dsn, table, mask(1..31)] ; revoke [user, dsn, table] ; get/put/patch/del [user(0..2), dsn, table, variant] ;
+// tx [user, dsn, table, kind(0 select,1 insert,2 update,3 delete,4 sql update,5 readrows with DELETE..RETURNING)] ;
 // droptable [user, dsn, table] ; createtable [dsn, table] (by admin) ; purge ; advance [s]
 func (c43Engine) Generate(seed uint64, tier string) *simrun.Case {
 	r := sim.NewRand(seed)
@@ -91,7 +92,13 @@ func (c43Engine) Generate(seed uint64, tier string) *simrun.Case {
 			if r.Chance(1, 8) {
 				u = 0
 			}
-			c.Ops = append(c.Ops, simrun.Op{K: []string{"get", "put", "patch", "del"}[r.Intn(4)], A: []int64{u, d, t}})
+			if r.Chance(1, 5) {
+				// the same row operations as tasks of a @transaction script (its own per-task authorization)
+				c.Ops = append(c.Ops, simrun.Op{K: "tx", A: []int64{u, d, t, int64(r.Intn(6))}})
+			} else {
+				// variant: 0 plain; 1 abstract row-set form (rowsAbstract.go); 2 (put only) upsert keyed on id
+				c.Ops = append(c.Ops, simrun.Op{K: []string{"get", "put", "patch", "del"}[r.Intn(4)], A: []int64{u, d, t, int64(r.Intn(3))}})
+			}
 		case x < 88:
 			if r.Chance(1, 2) {
 				u = 0 // the administrator drops it (a non-administrator cannot drop on the restricted DSN)
@@ -161,6 +168,9 @@ func (c43Engine) Execute(t *testing.T, c *simrun.Case, keepLog bool) *simrun.Out
 			perms := []string{defs.LogonPermission}
 			if u == "admin" {
 				perms = append(perms, defs.RootPermission)
+			}
+			if u == "u1" {
+				perms = append(perms, defs.SQLPermission) // may send SQL text (a user permission, not a table grant); u2 may not
 			}
 			store.users[u] = defs.User{Name: u, Password: c43Hash[u], Permissions: perms}
 		}
@@ -273,27 +283,70 @@ func (c43Engine) Execute(t *testing.T, c *simrun.Case, keepLog bool) *simrun.Out
 					} else if grants[k] != nil && exists[d+"."+tb] {
 						fail("revoke-refused", "op %d: the administrator's revoke of an existing grant was answered %d", i, st)
 					}
-				case "get", "put", "patch", "del", "droptable":
+				case "get", "put", "patch", "del", "droptable", "tx":
 					need := map[string]string{"get": "read", "put": "write", "patch": "update", "del": "delete", "droptable": "admin"}[op.K]
 					before := c43Dump(paths[d], tb)
+					variant := op.Arg(3) % 3
+					what := op.K
 					var st int
 					var resp string
 					switch op.K {
 					case "get":
-						st, resp = do(u, "GET", base+"/rows", "")
+						if variant == 1 {
+							what = "get (abstract)"
+							st, resp = do(u, "GET", base+"/rows?abstract=true", "")
+						} else {
+							st, resp = do(u, "GET", base+"/rows", "")
+						}
 					case "put":
 						nextID++
-						st, resp = do(u, "PUT", base+"/rows", fmt.Sprintf(`{"id": %d, "name": "n%d"}`, nextID, nextID))
+						switch variant {
+						case 1:
+							what = "put (abstract)"
+							st, resp = do(u, "PUT", base+"/rows?abstract=true", fmt.Sprintf(`{"columns":[{"name":"id","type":"int"},{"name":"name","type":"string"}],"rows":[[%d,"n%d"]],"count":1}`, nextID, nextID))
+						case 2:
+							// upsert keyed on id, for the id of a row that exists: the request UPDATES that row
+							if strings.Contains(before, "(1,") {
+								what = "put ?upsert=id of an existing row (an update)"
+								need = "update"
+								out.Probe("upserts_of_existing_rows", 1)
+							} else {
+								what = "put ?upsert=id of a new row"
+							}
+							st, resp = do(u, "PUT", base+"/rows?upsert=id", fmt.Sprintf(`{"id": 1, "name": "upserted%d"}`, nextID))
+						default:
+							st, resp = do(u, "PUT", base+"/rows", fmt.Sprintf(`{"id": %d, "name": "n%d"}`, nextID, nextID))
+						}
 					case "patch":
-						st, resp = do(u, "PATCH", base+"/rows?filter=EQ(id,1)", `{"name": "patched"}`)
+						if variant == 1 {
+							what = "patch (abstract)"
+							st, resp = do(u, "PATCH", base+"/rows?abstract=true&filter=EQ(id,1)", `{"columns":[{"name":"name","type":"string"}],"rows":[["apatched"]],"count":1}`)
+						} else {
+							st, resp = do(u, "PATCH", base+"/rows?filter=EQ(id,1)", `{"name": "patched"}`)
+						}
 					case "del":
 						st, resp = do(u, "DELETE", base+"/rows?filter=EQ(id,2)", "")
 					case "droptable":
 						st, resp = do(u, "DELETE", base, "")
+					case "tx":
+						nextID++
+						kind := op.Arg(3) % 6
+						need = []string{"read", "write", "update", "delete", "update", "delete"}[kind]
+						what = "@transaction task " + []string{"select", "insert", "update", "delete", "sql UPDATE", "readrows DELETE..RETURNING"}[kind]
+						task := []string{
+							fmt.Sprintf(`{"operation":"select","table":"%s","filters":["EQ(id,1)"],"columns":["name"]}`, tb),
+							fmt.Sprintf(`{"operation":"insert","table":"%s","data":{"id":%d,"name":"tx%d"}}`, tb, nextID, nextID),
+							fmt.Sprintf(`{"operation":"update","table":"%s","filters":["EQ(id,1)"],"columns":["name"],"data":{"name":"txpatched"}}`, tb),
+							fmt.Sprintf(`{"operation":"delete","table":"%s","filters":["EQ(id,2)"]}`, tb),
+							fmt.Sprintf(`{"operation":"sql","sql":"update %s set name = 'sqlpatched' where id = 1"}`, tb),
+							fmt.Sprintf(`{"operation":"readrows","sql":"delete from %s where id = 2 returning id"}`, tb),
+						}[kind]
+						st, resp = do(u, "POST", "/dsns/"+d+"/tables/@transaction", "["+task+"]")
+						out.Probe("transaction_script_requests", 1)
 					}
 					after := c43Dump(paths[d], tb)
 					ok2xx := st >= 200 && st <= 299
-					hist = append(hist, fmt.Sprintf("%s by %s on %s.%s -> %d", op.K, u, d, tb, st))
+					hist = append(hist, fmt.Sprintf("%s by %s on %s.%s -> %d", what, u, d, tb, st))
 					if !exists[d+"."+tb] {
 						break
 					}
@@ -302,13 +355,16 @@ func (c43Engine) Execute(t *testing.T, c *simrun.Case, keepLog bool) *simrun.Out
 					restricted := d != "du"
 					switch {
 					case !allowed && ok2xx:
-						fail("allowed-without-grant", "op %d: %s (needs %s) by %s on restricted %s.%s succeeded with %d although the permission store records %v for that user, DSN and table", i, op.K, need, u, d, tb, st, g)
+						fail("allowed-without-grant", "op %d: %s (needs %s) by %s on restricted %s.%s succeeded with %d although the permission store records %v for that user, DSN and table", i, what, need, u, d, tb, st, g)
 					case !allowed && after != before:
-						fail("changed-without-grant", "op %d: %s by %s on restricted %s.%s was answered %d but the table changed from %s to %s", i, op.K, u, d, tb, st, before, after)
+						fail("changed-without-grant", "op %d: %s by %s on restricted %s.%s was answered %d but the table changed from %s to %s", i, what, u, d, tb, st, before, after)
 					case allowed && u != "admin" && restricted && (st == http.StatusForbidden || st == http.StatusUnauthorized):
 						// the statement is "only if": a granted request that is refused for another
 						// reason (dropping a table also needs DSN-level administration) is not a violation
 						out.Probe("granted_but_refused_for_another_reason", 1)
+					case allowed && op.K == "tx" && op.Arg(3)%6 >= 4 && u == "u2" && st == http.StatusForbidden:
+						// SQL text in a script needs the user's ego.sql permission, whatever the table grants say
+						out.Probe("sql_text_refused_without_sql_permission", 1)
 					case allowed && (st == http.StatusForbidden || st == http.StatusUnauthorized):
 						fail("unlimited-caller-refused", "op %d: %s (needs %s) by %s on %s.%s was refused with %d although administrators and unrestricted DSNs are not limited (administrator=%v, restricted=%v, grant %v): %.200s", i, op.K, need, u, d, tb, st, u == "admin", restricted, g, resp)
 					}
